@@ -380,6 +380,83 @@ impl World {
         self.records.push(None);
     }
 
+    /// A key file written by a build with wider limits (the blob format is build-independent) whose
+    /// parameter list lies beyond this build's limits: every way of using it must end in an error.
+    pub fn op_foreign_key(&mut self, ki: usize, counter: u64) {
+        let cfg = self.keys[ki].cfg.clone();
+        let class = limit_class(&cfg.params);
+        self.event(format!("foreign-key k{} counter={} class={:?}", ki, counter, class));
+        self.records.push(None);
+        if !matches!(class, Limit::Outside) || cfg.params.len() > 8 {
+            return;
+        }
+        let blob = model::prv_blob(&cfg.params, counter, &cfg.seed);
+        let shape = shape_string(cfg.hash, &cfg.params);
+        let limits = format!("{} levels, heights {:?}, w >= {:?}", crate::BUILD_MAX_LEVELS, crate::BUILD_TREE_HEIGHTS, crate::BUILD_MIN_W);
+        self.fault("out-of-limit-key-file");
+        let message = content(9, counter ^ 0x5eed);
+        // lifetime query on the bytes
+        let o = lib::lifetime(cfg.hash, &blob);
+        self.oracle_evaluated();
+        match &o {
+            Outcome::Ok(v) => self.violate("C14", "out-of-limit-key:lifetime-ok", "limits", format!("lifetime query on a stored key for {} returned {} although the build is limited to {}", shape, v, limits)),
+            Outcome::Panic(site) => {
+                let site = site.clone();
+                self.note_panic(&site);
+                self.violate("C14", format!("panic:{}", site), "limits", format!("lifetime query panicked at {} on a stored key for the out-of-limit list {}", site, shape));
+            }
+            _ => {}
+        }
+        // byte-level sign with a recording callback
+        let mut cb_calls = 0usize;
+        let mut f = |_new: &[u8]| -> Result<(), ()> {
+            cb_calls += 1;
+            Ok(())
+        };
+        let o = lib::sign(cfg.hash, &message, &blob, &mut f, None);
+        self.oracle_evaluated();
+        match &o {
+            Outcome::Ok(sig) => self.violate("C14", "out-of-limit-key:sign-ok", "limits", format!("hbs_lms::sign produced a {}-byte signature from a stored key for {} although the build is limited to {}", sig.len(), shape, limits)),
+            Outcome::Panic(site) => {
+                let site = site.clone();
+                self.note_panic(&site);
+                self.violate("C14", format!("panic:{}", site), "limits", format!("hbs_lms::sign panicked at {} on a stored key for the out-of-limit list {}", site, shape));
+            }
+            _ => {}
+        }
+        if cb_calls > 0 {
+            self.violate("C14", "out-of-limit-key:callback", "limits", format!("the update callback was invoked {} time(s) for a stored key whose list {} is beyond the build's limits", cb_calls, shape));
+        }
+        // the object API
+        match lib::signing_key_from_bytes(cfg.hash, &blob) {
+            Outcome::Ok(mut obj) => {
+                let lo = obj.lifetime();
+                let so = obj.try_sign(&message);
+                self.oracle_evaluated();
+                if let Outcome::Ok(v) = &lo {
+                    self.violate("C14", "out-of-limit-key:lifetime-ok", "limits", format!("SigningKey::get_lifetime on a stored key for {} returned {} although the build is limited to {}", shape, v, limits));
+                }
+                if so.is_ok() {
+                    self.violate("C14", "out-of-limit-key:sign-ok", "limits", format!("SigningKey::try_sign signed with a stored key for {} although the build is limited to {}", shape, limits));
+                }
+                for (what, site) in [("get_lifetime", lo.panic_site()), ("try_sign", so.panic_site())] {
+                    if let Some(site) = site {
+                        self.note_panic(&site);
+                        self.violate("C14", format!("panic:{}", site), "limits", format!("SigningKey::{} panicked at {} on a stored key for the out-of-limit list {}", what, site, shape));
+                    }
+                }
+                if obj.bytes() != blob {
+                    self.violate("C14", "out-of-limit-key:object-changed", "limits", format!("a SigningKey loaded from a stored key for the out-of-limit list {} changed its bytes", shape));
+                }
+            }
+            Outcome::Panic(site) => {
+                self.note_panic(&site);
+                self.violate("C14", format!("panic:{}", site), "limits", format!("SigningKey::from_bytes panicked at {} on a stored key for the out-of-limit list {}", site, shape));
+            }
+            _ => {}
+        }
+    }
+
     pub fn op_load(&mut self, pi: usize, how: LoadAs) {
         let ki = self.procs[pi].key;
         let bytes = self.keys[ki].prv.clone();
@@ -1420,6 +1497,11 @@ pub fn run_plan(plan: &Plan, keep_events: bool) -> RunReport {
             Op::Inject { key, counter } => {
                 if *key < w.keys.len() {
                     w.op_inject(*key, *counter)
+                }
+            }
+            Op::ForeignKey { key, counter } => {
+                if *key < w.keys.len() {
+                    w.op_foreign_key(*key, *counter)
                 }
             }
             Op::Load { proc, how } => {
